@@ -57,10 +57,11 @@ P = {
          " env.step of the implementation is replayed on the env model; an independent reading of flags/makespan runs on every step; when "
          "the correspondence breaks a directed search (phased policies, zero-travel shops, truncation on) looks for a failing input."),
  "C05": ("SM", "Theorems (Props/C05.v): a successful step re-establishes the store and clock invariants, a failing step returns its "
-         "input state (clean failure), offered transitions never fail validation (C05_no_validation_error); OVER WHOLE RUNS, for every instance "
-         "whose machine pre-buffers are unordered (any post-buffers): the middleware never receives an unsuccessful result "
-         "(success=False) in any run - every transition the simulator applies passes validation where it is applied "
-         "(C05_step_never_reports_failure_unordered_pre, SMP/NoFail.v; the check also judges every reported failure in generated episodes). Liveness (every offered "
+         "input state (clean failure), offered transitions never fail validation (C05_no_validation_error); OVER WHOLE RUNS of EVERY instance: the middleware never receives an unsuccessful result "
+         "(success=False) in any run - every transition the simulator applies passes validation where it is applied, including the "
+         "IDLE->SETUP transitions a machine creates by itself from an ordered pre-buffer (SMP/Deliver.v: a job in a pre-buffer has its "
+         "next operation on that machine) and the transitions re-issued from time dependencies "
+         "(C05_step_never_reports_failure_every_instance, SMP/NoFail.v; the check also judges every reported failure in generated episodes). Liveness (every offered "
          "action can be taken, the episode can always finish) is FALSE of the code and refuted by theorem: C05_refuted_step / "
          "C05_refuted_reachable show, for a compiled document reached through the middleware, that accepting the offered action makes "
          "state.step run out of EVERY fuel (lasso lemma SMP/Hang.v; the witness is replayed on the implementation on every run). "
@@ -88,7 +89,9 @@ P = {
          "earlier than its predecessor's end plus the deterministic travel-time entry between the two machines, in every state and "
          "micro-state of every run (C07_start_after_predecessor_plus_travel_*_every_instance, SMP/Travel.v: released into the finishing machine's "
          "post-buffer, picked up with the entry for that direction, delivered exactly when due; clause travel_gap_b also monitored "
-         "on every implementation state, all instances). " + TIE),
+         "on every implementation state, all instances); a job is delivered to the machine of its next operation - every job lying in "
+         "a machine's pre-buffer has its first not-done operation there (C07_delivered_to_the_machine_of_the_next_operation_*, clause "
+         "pre_ok_b, SMP/Deliver.v); stored time dependencies are well-formed (C07_time_dependencies_wellformed_*, clause depi_b). " + TIE),
  "C08": ("SM", "Theorems (Props/C08.v): capacity_b (no buffer above its capacity) in every reachable state and micro-state (from WFS); "
          "insertion at the back and release-by-discipline are post-state theorems in SMP/Post (post_to_transit: an ordered buffer "
          "releases only the position its discipline allows, otherwise the AGV keeps waiting) and extracted event monitors "
